@@ -47,6 +47,8 @@ type Op struct {
 	CancelPoll int    `json:"cancel_poll,omitempty"` // host signal reports true from this poll on (0 = never)
 	ClockOff   int64  `json:"clock_off,omitempty"`   // seconds added to the base instant for this operation
 	Zone       string `json:"zone,omitempty"`
+	// NoTime: the host passes the zero time for the input point (it has no timestamp)
+	NoTime bool `json:"no_time,omitempty"`
 }
 
 type Workload struct {
@@ -198,6 +200,7 @@ func (Prop) Generate(seed uint64, tier string) *core.Plan {
 			if r.Intn(4) == 0 {
 				op.CancelPoll = 1 + r.Intn(12)
 			}
+			op.NoTime = r.Intn(8) == 0
 		case c < 94:
 			op.Kind = "runv2"
 			op.Src = r.Intn(len(w.V2))
@@ -362,7 +365,11 @@ func (x *executor) run(op *Op, fresh bool) string {
 	}
 	pt := input.GetPoint()
 	tpl := &x.w.Points[op.Point]
-	input.InitPt(pt, tpl.Measurement, tpl.TagsCopy(), tpl.Fields(), x.base)
+	ptTime := x.base
+	if op.NoTime {
+		ptTime = time.Time{}
+	}
+	input.InitPt(pt, tpl.Measurement, tpl.TagsCopy(), tpl.Fields(), ptTime)
 	sig := &pollSig{at: op.CancelPoll}
 	err := sc.Run(pt, sig)
 	out := fmt.Sprintf("err=%s %s", errStr(errOrNil(err)), pointStr(pt))
